@@ -292,3 +292,22 @@ func (c *Chip) paceStep(in []TLV, chaining bool, ex *Exchange) ([]byte, uint16) 
 	}
 	return c.failPace(ex, "bad state", 0x6985)
 }
+
+// EncryptCAM / DecryptCAM: A_IC = E(KS_enc, pad(CA_IC)) in CBC mode with IV = E(KS_enc, FF..FF) (9303-11 4.4.3.5).
+func EncryptCAM(suite string, ksEnc, caIC []byte) []byte {
+	blk := newBlock(suite, ksEnc)
+	iv := make([]byte, 16)
+	blk.Encrypt(iv, bytes.Repeat([]byte{0xFF}, 16))
+	return cbcEnc(blk, iv, Pad2(caIC, 16))
+}
+
+func DecryptCAM(suite string, ksEnc, aic []byte) ([]byte, error) {
+	blk := newBlock(suite, ksEnc)
+	iv := make([]byte, 16)
+	blk.Encrypt(iv, bytes.Repeat([]byte{0xFF}, 16))
+	d, err := cbcDec(blk, iv, aic)
+	if err != nil {
+		return nil, err
+	}
+	return Unpad2(d)
+}
